@@ -130,6 +130,15 @@ Theorem C19_nothing_starts_after_release : forall W Q s l s', reachable W Q s ->
   started s' = started s /\ runl s' = runl s /\ wk s' = wk s /\ rp s' = RDone.
 Proof. exact GpoolProofs.nothing_starts_after_release. Qed.
 
+(* when Release returns every job ever handed to a worker has finished; what was still queued has not started (and never will) *)
+Theorem C19_release_after_every_started_job_finished : forall W Q s, reachable W Q s -> (rp s = RDone \/ rp s = RAcked) ->
+  Permutation (started s) (fin s) /\ (forall j, In j (started s) -> In j (fin s)) /\ (forall j, In j (jobq s) -> ~ In j (started s)).
+Proof. exact GpoolFifo.release_after_every_started_job_finished. Qed.
+(* the buffered WorkerQueue never exceeds its capacity W: a worker's registration `w.WorkerQueue <- w` never blocks *)
+Theorem C19_worker_registration_never_blocks : forall W Q s, reachable W Q s ->
+  length (wq s) <= W /\ (forall w s', step W Q s (WorkerReg w) = Some s' -> length (wq s) < W).
+Proof. exact GpoolFifo.worker_queue_never_blocks. Qed.
+
 (* refinement: the observable trace of every execution is accepted by the specification machine (the validator run on real traces) *)
 Theorem C19_refines_spec : forall W Q ls s, run W Q (init W) ls = Some s ->
   sruns W sinit (trace W Q (init W) ls) = Some (abs s) /\ accepts W (trace W Q (init W) ls) = true.
@@ -253,3 +262,5 @@ Print Assumptions C19_shutdown_progress.
 Print Assumptions C19_add_inside_goroutine_refuted.
 Print Assumptions C19_release_before_wait_refuted.
 Print Assumptions C19_count_at_start_refuted.
+Print Assumptions C19_release_after_every_started_job_finished.
+Print Assumptions C19_worker_registration_never_blocks.
